@@ -522,21 +522,7 @@ func (c *Client) gc() {
 			delete(c.Cache, rid)
 		}
 	}
-	if dropped && c.Tainted == "" {
-		// Precondition of known findings F-12/F-14/F-16/F-17: the client releases
-		// its last path to a resource while a request of the same connection is in
-		// flight. The gateway may then keep the subscription alive (unsent) for
-		// that request; an unsent subscription keeps processing events, and what
-		// the pending request and later events deliver is no longer what a client
-		// that dropped the resource needs.
-		for _, r := range c.ReqL {
-			if r.Resp == nil && r.Action != "unsubscribe" && r.Action != "version" {
-				c.Tainted = "drop-while-pending"
-				c.s.stat("tainted_clients_drop_while_pending", 1)
-				break
-			}
-		}
-	}
+	_ = dropped
 }
 
 // checkRefs is C02.a: no dangling non-soft reference among held resources.
